@@ -216,7 +216,8 @@ def _compare(b, case, pps, back, ppq, mpq, merged):
     wp = sorted((p["program"], p["channel"]) for pp in pps for p in pp.programs)
     gp = sorted((p["program"], p["channel"]) for pp in back.performedparts for p in pp.programs)
     # parts without programs get the default program 0 exactly once per (track, channel); explicit programs are kept as they are
-    defaults = sorted({(0, x["channel"]) if merged else (0, x["channel"], x["track"]) for pp in pps if not pp.programs for x in list(pp.notes) + list(pp.controls)})
+    # (merging tracks does not merge the defaults: one per original (track, channel) pair)
+    defaults = sorted({(0, x["channel"], x["track"]) for pp in pps if not pp.programs for x in list(pp.notes) + list(pp.controls)})
     rest = list(gp)
     okp = True
     for w in wp:
